@@ -132,6 +132,54 @@ def c11_case(rng):
     return c
 
 
+def reparam_case(rng):
+    """a (possibly batched) normal_reparam / uniform_reparam site with scripted noise"""
+    from genjax import normal_reparam, uniform_reparam
+    uni = rng.random() < 0.3
+    L = rng.choice([1, 2, 3])
+    theta = rng.choice([0.0, 0.5, 1.0])
+    mu_vec = rng.random() < 0.5 and L > 1
+    sg_vec = rng.random() < 0.6 and L > 1
+    if not (mu_vec or sg_vec):
+        Leff = 1
+    else:
+        Leff = L
+    ma = [rng.choice([-1.0, 0.0, 0.5, 2.0]) for _ in range(Leff if mu_vec else 1)]
+    mb = [rng.choice([0.0, 1.0, -0.5]) for _ in range(Leff if mu_vec else 1)]
+    sa = [rng.choice([0.5, 1.0, 2.0]) + (3.0 if uni else 0.0) for _ in range(Leff if sg_vec else 1)]
+    sb = [rng.choice([0.0, 0.5, 1.0]) for _ in range(Leff if sg_vec else 1)]
+    eps = [rng.choice([-1.5, -0.5, 0.25, 0.5, 1.0, 2.0]) if not uni else rng.choice([0.125, 0.25, 0.5, 0.75])
+           for _ in range(Leff)]
+    ws = [rng.choice([1.0, -2.0, 0.5]) for _ in range(Leff)]
+    c = {"kind": "reparam", "uniform": uni, "theta": theta, "L": Leff, "ma": ma, "mb": mb, "sa": sa, "sb": sb,
+         "eps": eps, "ws": ws, "mu_vec": mu_vec, "sg_vec": sg_vec}
+    saved = (adev.normal, adev.uniform)
+
+    def scripted(a, b):
+        shape = jnp.broadcast_shapes(jnp.shape(a), jnp.shape(b))
+        cnt = int(np.prod(shape)) if shape else 1
+        return jnp.asarray(eps[:cnt], dtype=jnp.float32).reshape(shape)
+    try:
+        adev.normal = types.SimpleNamespace(sample=scripted, logpdf=saved[0].logpdf)
+        adev.uniform = types.SimpleNamespace(sample=scripted, logpdf=saved[1].logpdf)
+        site = uniform_reparam if uni else normal_reparam
+
+        @expectation
+        def f(t):
+            mu = jnp.asarray(ma) + jnp.asarray(mb) * t if mu_vec else ma[0] + mb[0] * t
+            sg = jnp.asarray(sa) + jnp.asarray(sb) * t if sg_vec else sa[0] + sb[0] * t
+            x = site(mu, sg)
+            x = jnp.reshape(x, (-1,))
+            return jnp.sum(jnp.asarray(ws) * x) + x[0] * x[-1]
+        d = f.jvp_estimate(Dual(jnp.float32(theta), jnp.float32(1.0)))
+        c["p"], c["t"] = fr(d.primal), fr(d.tangent)
+    except Exception as e:  # noqa: BLE001
+        c["err"] = type(e).__name__ + ": " + str(e)[:200]
+    finally:
+        adev.normal, adev.uniform = saved
+    return c
+
+
 # ---------------------------------------------------------------- C15
 
 
@@ -153,6 +201,28 @@ def det_programs():
         "pytree": (lambda t: t["a"] * t["b"][0] + jnp.sum(t["b"][1]), "t"),
         "arange_int": (lambda x: jnp.sum(x * jnp.arange(3)), "v3"),
         "const_only": (lambda x: x * 0.0 + 4.0, "s"),
+        # complex-valued intermediates of a real function
+        "complex_exp": (lambda x: jnp.real(jnp.exp(1j * x) * (x + 2j)), "s"),
+        "complex_abs": (lambda x: jnp.abs(x * (1.0 + 2.0j) + 1j) ** 2, "s"),
+        "fft_power": (lambda x: jnp.sum(jnp.abs(jnp.fft.fft(x * x + 1.0)) ** 2) + jnp.sum(jnp.imag(jnp.fft.fft(x))), "v"),
+        # further primitive families
+        "half_precision": (lambda x: (x.astype(jnp.float16) * 2.0).astype(jnp.float32) * x, "s"),
+        "scan_loop": (lambda x: jax.lax.scan(lambda c, a: (c * x + a, c), x, jnp.arange(3.0))[0], "s"),
+        "fori_loop": (lambda x: jax.lax.fori_loop(0, 3, lambda i, c: c * x + i, x), "s"),
+        "inner_vmap": (lambda x: jnp.sum(jax.vmap(lambda a: a * a * x[0])(x)), "v"),
+        "cumsum_sort": (lambda x: jnp.sum(jnp.cumsum(jnp.sort(x)) * x), "v"),
+        "argmax_index": (lambda x: x[jnp.argmax(x)] * x[jnp.argmin(x)] + x[jnp.argmax(x)], "v"),
+        "linalg_solve": (lambda x: jnp.sum(jnp.linalg.solve(A + jnp.diag(x[:2] * x[:2]), x[:2])), "v"),
+        "linalg_det_inv": (lambda x: jnp.linalg.det(A * x[0]) + jnp.sum(jnp.linalg.inv(A + jnp.eye(2) * (4.0 + x[1] * x[1]))), "v"),
+        "concat_reshape": (lambda x: jnp.sum(jnp.concatenate([x, x * 2.0]).reshape(2, 3) @ x), "v"),
+        "dynamic_slice": (lambda x: jnp.sum(jax.lax.dynamic_slice(x * x, (jnp.argmax(x) % 2,), (2,))), "v"),
+        "clip_abs": (lambda x: jnp.sum(jnp.clip(x, -0.75, 1.0) * jnp.abs(x)), "v"),
+        "int_div_mod": (lambda x: x * ((jnp.asarray(7, jnp.int32) // 2) % 3).astype(jnp.float32) + jnp.float32(jnp.int32(3) * 2), "s"),
+        "nested_cond": (lambda x: jax.lax.cond(x > 0.5, lambda v: jax.lax.cond(v > 1.0, lambda u: u * u, lambda u: -u, v), lambda v: v * 3.0, x), "s"),
+        "switch3": (lambda x: jax.lax.switch(jnp.int32(2), [lambda v: v, lambda v: v * v, lambda v: v * v * v], x), "s"),
+        "relu_custom_jvp": (lambda x: jax.nn.relu(x) * x, "s"),
+        "logsumexp": (lambda x: jax.nn.logsumexp(x * x), "v"),
+        "while_loop": (lambda x: jax.lax.while_loop(lambda c: c[0] < 3, lambda c: (c[0] + 1, c[1] * 1.5), (0, x))[1], "s"),
     }
 
 
@@ -163,9 +233,9 @@ def tree_close(a, b, tol=1e-5):
                             for x, y in zip(la, lb))
 
 
-def c15_case(rng):
+def c15_case(rng, name=None):
     progs = det_programs()
-    name = rng.choice(sorted(progs))
+    name = name or rng.choice(sorted(progs))
     f, kind = progs[name]
     c = {"kind": "det", "name": name}
     try:
@@ -182,9 +252,14 @@ def c15_case(rng):
         d = ef.jvp_estimate(Dual.dual_tree(x, tx))
         wp, wt = jax.jvp(f, (x,), (tx,))
         ok_jvp = tree_close(d.primal, wp) and tree_close(d.tangent, wt)
-        ok_grad = tree_close(ef.grad_estimate(x), jax.grad(f)(x))
+        try:
+            ref_grad = jax.grad(f)(x)
+        except Exception:  # noqa: BLE001   jax.grad itself is undefined here (e.g. while_loop): forward mode only
+            ref_grad = None
+            c["no_reverse"] = True
+        ok_grad = ref_grad is None or tree_close(ef.grad_estimate(x), ref_grad)
         ok_est = tree_close(ef.estimate(x), f(x))
-        ok_jit = tree_close(jax.jit(lambda xx: ef.grad_estimate(xx))(x), jax.grad(f)(x))
+        ok_jit = ref_grad is None or tree_close(jax.jit(lambda xx: ef.grad_estimate(xx))(x), ref_grad)
         c.update({"ok_jvp": ok_jvp, "ok_grad": ok_grad, "ok_est": ok_est, "ok_jit": ok_jit})
     except Exception as e:  # noqa: BLE001
         c["err"] = type(e).__name__ + ": " + str(e)[:200]
@@ -199,6 +274,8 @@ def canon_cases():
     kinds = {0: (prim, ad.Zero(jax.typeof(prim).to_tangent_aval())),
              1: (iprim, np.zeros((), dtype=jax.dtypes.float0)),
              2: (prim, jnp.float32(1.0))}
+    kinds[3] = (jnp.complex64(1.0 + 2.0j), jnp.complex64(0.5 - 1.0j))
+    kinds[4] = (jnp.float16(1.0), jnp.float16(0.5))
     for k, (p, t) in kinds.items():
         c = {"kind": "canon", "kin": k}
         try:
@@ -215,12 +292,14 @@ def main():
     rng = random.Random(sd)
     cases = []
     if which == "c11":
-        for _ in range(n):
-            cases.append(c11_case(rng))
+        for i in range(n):
+            cases.append(c11_case(rng) if i % 3 != 2 else reparam_case(rng))
     else:
         cases.extend(canon_cases())
-        for _ in range(n):
-            cases.append(c15_case(rng))
+        names = sorted(det_programs())
+        for i in range(n):
+            # every template is visited: shard sd starts at a different offset
+            cases.append(c15_case(rng, names[(sd * n + i) % len(names)]))
     json.dump(cases, open(out, "w"))
 
 
